@@ -6,18 +6,29 @@ import ScrapliModel.PromptClass
 
   Building blocks
     host   = [A-Za-z0-9]([A-Za-z0-9_.-]{0,61}[A-Za-z0-9])?          (RFC 1123 label + `_`, 1..63 bytes)
+    hostN n = the same with at most n bytes
     user   = [a-z_][a-z0-9_-]{0,30}                                  (login name, EOS / Junos `user@host`)
     sub    = [a-z0-9][a-z0-9-]{0,24}                                 (configuration sub-mode: `config-<sub>`)
-    loc    = RP/0/(RP|RSP)[0-9]/CPU[0-9]:                            (IOS-XR location prefix)
-    head63 x = x ∩ Σ{1,63}     the text before the mode decoration is at most 63 bytes
-                               (the property's "length 1..limit"; see design/C05.md, finding F23 for
-                                what happens beyond it)
+    loc    = RP/0/(RP|RSP)[0-9]/CPU[0-9]:                            (IOS-XR location prefix, 14..15 bytes)
     blank? = optional single trailing blank, only on the platforms whose vendor prints one
              (IOS-XR, NX-OS, EOS, Junos; not IOS-XE)
+  Length limit ("length 1..limit" of the property): the text before the mode decoration is at most 63
+  bytes (the bound every scrapli pattern uses), so where the vendor prints something in front of the
+  hostname the hostname bound is reduced accordingly: IOS-XR host ≤ 48, `user@host` host ≤ 31.
+  The NX-OS session pattern bounds the hostname by 32: NX-OS session prompts use host ≤ 32.
   Reserved sub-mode names are removed from `sub` where the vendor uses them for another mode:
-    IOS-XE / NX-OS: names ending in `tcl`  (the `(config-tcl)` decoration is tclsh)
-    NX-OS:          `s` and `s-…`          (`(config-s)`, `(config-s-…)` are configuration sessions)
-    EOS:            `s-…`                  (`(config-s-<name>)` is a configuration session)
+    IOS-XE:  names ending in `tcl`         (the `(…tcl)` decoration is tclsh)
+    NX-OS:   names starting with `tcl`; `s` and `s-…`   (`(config-tcl)` is tclsh; `(config-s)`,
+                                            `(config-s-…)` are configuration sessions)
+    EOS:     `s-…`                         (`(config-s-<name>)` is a configuration session)
+  Inherent ambiguity removed: an NX-OS hostname ending in `-tcl` (any case) at privilege_exec prints
+  exactly what tclsh prints for the host without the suffix.
+  Restrictions that are PREDICATES OF OPEN FINDINGS (the `…Full` lists are the same modes without them,
+  their failing obligations carry machine-checked witnesses):
+    F12 Junos  configuration / shell prompts do not contain `root`
+    F24 NX-OS  privilege_exec hostname does not contain `-tcl`
+    F25 NX-OS  with a registered session: configuration sub-mode name does not start with `s`
+    F26 EOS    session prompt head does not contain `_`
 -/
 namespace Scrapli.Spec.PromptGrammar
 open Scrapli.Regex RE Scrapli.PromptClass
@@ -37,13 +48,16 @@ def user : RE :=
 /-- `[a-z0-9][a-z0-9-]{0,24}` -/
 def sub : RE := cat (cls (bmLower ||| bmDigit)) (rep (cls (bmLower ||| bmDigit ||| bmOfList [45])) 0 24)
 
+/-- hostname of at most `n ≥ 2` bytes -/
+def hostN (n : Nat) : RE := cat alnum (opt (cat (rep (cls (bmAlnum ||| bmOfList [95, 46, 45])) 0 (n - 2)) alnum))
+
 def s (x : String) : RE := RE.str x
 def blankOpt : RE := opt (byte 32)
 def minus (a b : RE) : RE := .and a (.not b)
-def head63 (x : RE) : RE := .and x (rep any 1 63)
 def endsWith (x : String) : RE := cat all (s x)
 def startsWith (x : String) : RE := cat (s x) all
-def noRoot : RE := .not (RE.contains "root".toUTF8.toList)
+def containsS (x : String) : RE := RE.contains x.toUTF8.toList
+def noRoot : RE := .not (containsS "root")
 
 /-- `(config)` or `(config-<sub>)` followed by `#` -/
 def configDeco (sb : RE) : RE := cats [s "(config", opt (cat (s "-") sb), s ")#"]
@@ -59,29 +73,35 @@ def iosxe : List Mode := [
 /-! ### Cisco IOS-XR — `RP/0/RP0/CPU0:host#`, `RP/0/RP0/CPU0:host(config…)#`; configuration and
     configuration_exclusive show the same prompt (share group) -/
 def iosxrLoc : RE := cats [s "RP/0/", alt (s "RP") (s "RSP"), digit, s "/CPU", digit, s ":"]
-def iosxrHead : RE := head63 (cat iosxrLoc host)
+def iosxrHead : RE := cat iosxrLoc (hostN 48)
 def iosxr : List Mode := [
   ⟨"privilege_exec", ["privilege_exec"], cats [iosxrHead, s "#", blankOpt]⟩,
   ⟨"configuration", ["configuration", "configuration_exclusive"], cats [iosxrHead, configDeco sub, blankOpt]⟩]
 
 /-! ### Cisco NX-OS — optional `(maint-mode)`; tclsh in its five forms; configuration sessions -/
 def maintOpt : RE := opt (s "(maint-mode)")
-def nxosSub : RE := minus sub (alts [endsWith "tcl", s "s", startsWith "s-"])
-def nxos : List Mode := [
-  ⟨"exec", ["exec"], cats [host, maintOpt, s ">", blankOpt]⟩,
-  ⟨"privilege_exec", ["privilege_exec"], cats [minus host (RE.contains "-tcl".toUTF8.toList), maintOpt, s "#", blankOpt]⟩,
-  ⟨"configuration", ["configuration"], cats [host, maintOpt, configDeco nxosSub, blankOpt]⟩,
-  ⟨"tclsh", ["tclsh"], cat (alts [cat host (s "-tcl#"), cat host (s "(config-tcl)#"), s ">",
-      cat host (s "(maint-mode-tcl)#"), cat host (s "(maint-mode)(config-tcl)#")]) blankOpt⟩]
+def nxosSub : RE := minus sub (alts [startsWith "tcl", s "s", startsWith "s-"])
+def endsTclCI : RE := cat all (cats [s "-", oneOf "tT", oneOf "cC", oneOf "lL"])
+def nxosPrivHostFull : RE := minus host endsTclCI
+def nxosPrivHost : RE := minus host (alt endsTclCI (containsS "-tcl"))
+def nxosExec : Mode := ⟨"exec", ["exec"], cats [host, maintOpt, s ">", blankOpt]⟩
+def nxosPriv (h : RE) : Mode := ⟨"privilege_exec", ["privilege_exec"], cats [h, maintOpt, s "#", blankOpt]⟩
+def nxosConfig (sb : RE) : Mode := ⟨"configuration", ["configuration"], cats [host, maintOpt, configDeco sb, blankOpt]⟩
+def nxosTclsh : Mode := ⟨"tclsh", ["tclsh"], cat (alts [cat host (s "-tcl#"), cat host (s "(config-tcl)#"), s ">",
+      cat host (s "(maint-mode-tcl)#"), cat host (s "(maint-mode)(config-tcl)#")]) blankOpt⟩
+def nxos : List Mode := [nxosExec, nxosPriv nxosPrivHost, nxosConfig nxosSub, nxosTclsh]
+def nxosFull : List Mode := [nxosPriv nxosPrivHostFull]
 /-- after `register_configuration_session`: every registered session shows `host(config-s…)#`
-    (the NX-OS pattern does not depend on the name: all sessions form one share group).
-    The session pattern bounds the hostname by 32 bytes. -/
+    (the NX-OS pattern does not depend on the name: all sessions form one share group) -/
 def nxosSessionMode (names : List String) : Mode :=
-  ⟨"session", names, cats [.and host (rep any 1 32), s "(config-s", opt (cat (s "-") sub), s ")#", blankOpt]⟩
-def nxosS (names : List String) : List Mode := nxos ++ [nxosSessionMode names]
+  ⟨"session", names, cats [hostN 32, s "(config-s", opt (cat (s "-") sub), s ")#", blankOpt]⟩
+def nxosS (names : List String) : List Mode :=
+  [nxosExec, nxosPriv nxosPrivHost, nxosConfig (minus sub (alt (startsWith "tcl") (startsWith "s"))), nxosTclsh,
+   nxosSessionMode names]
+def nxosSFull : List Mode := [nxosConfig nxosSub]
 
 /-! ### Arista EOS — `[user@]host>`; sessions `host(config-s-<first 6 chars of name>[-<sub>])#` -/
-def eosHead : RE := head63 (cat (opt (cat user (s "@"))) host)
+def eosHead : RE := alt host (cats [user, s "@", hostN 31])
 def eosSub : RE := minus sub (startsWith "s-")
 def eos : List Mode := [
   ⟨"exec", ["exec"], cats [eosHead, s ">", blankOpt]⟩,
@@ -90,17 +110,18 @@ def eos : List Mode := [
 def first6 (n : String) : String := String.ofList (n.toList.take 6)
 /-- one mode per distinct 6-character prefix; sessions sharing the prefix are a share group
     (EOS prints only the first six characters, the truncation in scrapli is deliberate) -/
-def eosSessionModes (names : List String) : List Mode :=
+def eosSessionModes (head : RE) (names : List String) : List Mode :=
   (names.map first6).eraseDups.map (fun p =>
     ⟨"session:" ++ p, names.filter (fun n => first6 n == p),
-     cats [eosHead, s "(config-s-", s p, opt (cat (s "-") sub), s ")#", blankOpt]⟩)
-def eosS (names : List String) : List Mode := eos ++ eosSessionModes names
+     cats [head, s "(config-s-", s p, opt (cat (s "-") sub), s ")#", blankOpt]⟩)
+def eosS (names : List String) : List Mode := eos ++ eosSessionModes (minus eosHead (containsS "_")) names
+def eosSFull (names : List String) : List Mode := eosSessionModes eosHead names
 
 /-! ### Juniper Junos — `user@host>`, `user@host#` with the optional banner line the patterns admit
     (`{master:0}`, `{primary:node0}`, `{master}`; in configuration mode followed by `[edit]`),
     shell `%` / `$`, root shell `root@host:~ #`, `root@host%`, `root@%`, `root@host:RE:0%`.
     The three configuration levels show the same prompt (share group). -/
-def junosHead : RE := head63 (cats [user, s "@", host])
+def junosHead : RE := cats [user, s "@", hostN 31]
 def banner : RE := cats [s "{", rep (cls bmLower) 1 12,
   opt (cats [s ":", rep (cls bmLower) 0 8, digit]), s "}"]
 def pathSeg : RE := rep (cls (bmAlnum ||| bmOfList [95, 46, 45])) 1 16
@@ -115,17 +136,15 @@ def junosRootG : RE := cat (s "root@") (alts [
   cats [host, s ":RE:", digit, s "%", blankOpt],
   cats [host, s ":", path, s " #", blankOpt]])
 def junosConfigs : List String := ["configuration", "configuration_exclusive", "configuration_private"]
-/-- the grammar as the property states it (no restriction on the letters `root`) -/
-def junosFull : List Mode := [
-  ⟨"exec", ["exec"], junosExecG⟩,
-  ⟨"configuration", junosConfigs, junosConfigG⟩,
-  ⟨"shell", ["shell"], junosShellG⟩,
-  ⟨"root_shell", ["root_shell"], junosRootG⟩]
 /-- restricted by the predicate of finding F12: outside root_shell the prompt does not contain `root` -/
 def junos : List Mode := [
   ⟨"exec", ["exec"], junosExecG⟩,
   ⟨"configuration", junosConfigs, .and junosConfigG noRoot⟩,
   ⟨"shell", ["shell"], .and junosShellG noRoot⟩,
   ⟨"root_shell", ["root_shell"], junosRootG⟩]
+/-- the two restricted modes as the property states them (no restriction on the letters `root`) -/
+def junosFull : List Mode := [
+  ⟨"configuration", junosConfigs, junosConfigG⟩,
+  ⟨"shell", ["shell"], junosShellG⟩]
 
 end Scrapli.Spec.PromptGrammar
